@@ -261,6 +261,7 @@ func (e *env) crafted(phase string, base outcome) {
 	for _, role := range []string{"owner2", "owner3"} {
 		signers = append(signers, signer{"earlier-or-other-owner-" + role, keys.Get(e.kind.Alg, role)})
 	}
+	signers = append(signers, signer{"issuer-of-the-owner-certificate (the CA whose certificate closes an X5CHAIN key)", keys.Get("ec384", "devca")})
 	for _, alg := range []string{"ec256", "ec384", "rsa2048", "rsa3072"} {
 		if alg != e.kind.Alg {
 			signers = append(signers, signer{"stranger-" + alg, keys.Get(alg, "stranger")})
@@ -498,8 +499,8 @@ func main() {
 		k := keys.KindByName(kn)
 		for _, hops := range hopsList {
 			encs := []protocol.KeyEncoding{protocol.X509KeyEnc}
-			if !r.Quick() && hops == 2 {
-				encs = k.Encodings()
+			if (!r.Quick() && hops == 2) || (r.Quick() && hops == 1 && (kn == "ec384" || kn == "ec256")) {
+				encs = k.Encodings() // incl. X5CHAIN keys, which the lab issues as [leaf, issuing CA] chains
 			}
 			for _, enc := range encs {
 				wg.Add(1)
